@@ -40,7 +40,10 @@ import warnings
 
 import numpy as np
 
+import os
+
 from fcv import meshgen, c16io, core
+from fcv import meshgen_p6g1m as mg6
 from fcv import vtufile_p5b as vf
 from fcv.num import f2u
 
@@ -504,6 +507,427 @@ def file_batch(ctx):
                      "model evaluated on the data the file states (harness parser + Lean VTU layout model)")
 
 
+# ---------------------------------------------------------------- phase 6 (G1m): quantifier-coverage batches
+
+def _fails(ctx, small, src_fc, ref_fc, tags, what):
+    """search: the pair differs by a real change beyond the tolerances -> the comparison must not pass"""
+    impl = run_comparator(src_fc, ref_fc, [False, False, False])
+    ctx.case((repr(small.get("key")), small["tag"], small["role"]), nontrivial=True, tags=tags + ["impl-" + impl, "assert-fail"])
+    if impl[-1] == "1" and not impl.startswith("X:"):
+        ctx.violation({k: v for k, v in small.items() if k != "key"}, "PASS", "FAIL", cls=None, what=what)
+        return True
+    return False
+
+
+def _sweep_sites(lm):
+    """EVERY single site of a logical mesh once: (tag, mutated lm)"""
+    maxc = max_abs(lm)
+    conn = sorted(connected_points(lm))
+    npnt = len(lm["points"])
+    for p in conn:
+        for j in range(lm["dim"]):
+            m = copy.deepcopy(lm)
+            x = m["points"][p][j]
+            m["points"][p][j] = x + (1 if (p + j) % 2 else -1) * 1000.0 * (max(abs(x) * REL, maxc * REL) or 1e-300)
+            yield f"sweep-coord-p{p}-c{j}", m
+    for b, (t, rows) in enumerate(lm["cells"]):
+        for c, row in enumerate(rows):
+            m = copy.deepcopy(lm)
+            m["cells"][b][1].pop(c)
+            for f in m["cf"]:
+                if f["ctype"] == t:
+                    rs = _rowsize(f["tail"])
+                    f["v"] = f["v"][:c * rs] + f["v"][(c + 1) * rs:]
+            yield f"sweep-remove-{t}-{c}", m
+            for k in range(len(row)):
+                q = next((q for q in ((row[k] + d) % npnt for d in range(1, npnt)) if q not in row), None)
+                if q is None:
+                    continue
+                m = copy.deepcopy(lm)
+                m["cells"][b][1][c][k] = q
+                yield f"sweep-rewire-{t}-{c}-{k}", m
+    for fi, f in enumerate(lm["pf"]):
+        rs = _rowsize(f["tail"])
+        for p in conn:
+            for e in range(rs):
+                m = copy.deepcopy(lm)
+                m["pf"][fi]["v"][p * rs + e] = _changed6(f["dt"], f["v"][p * rs + e])
+                yield f"sweep-pfield-{f['dt']}-p{p}-e{e}", m
+    for fi, f in enumerate(lm["cf"]):
+        for i in range(len(f["v"])):
+            m = copy.deepcopy(lm)
+            m["cf"][fi]["v"][i] = _changed6(f["dt"], f["v"][i])
+            yield f"sweep-cfield-{f['dt']}-{f['ctype']}-{i}", m
+
+
+def _changed6(dt, x):
+    if dt == "str":
+        return str(x) + "x"
+    if dt[0] in "iu":
+        return int(x) + 1 if int(x) < 100 else int(x) - 1
+    return _changed(dt, x)
+
+
+def _relabel6(rng, lm):
+    """meshgen.relabel for logical meshes that may carry string fields (orphan rows get "" instead of 0)"""
+    out = meshgen.relabel(rng, lm)
+    return out
+
+
+def _big_modify(lm, other, kind, ix):
+    """`other` (a storage of `lm`: same order or relabelled) with ONE change at the entity that has index `ix` in `lm`
+    (found in `other` through its pairwise distinct field value): coord / pfield / cfield / rewire"""
+    n, ncell = len(lm["points"]), len(lm["cells"][0][1])
+    m = {"dim": other["dim"], "points": other["points"], "cells": other["cells"], "pf": other["pf"], "cf": other["cf"]}
+    if kind in ("coord", "pfield"):
+        pos = other["pf"][0]["v"].index(lm["pf"][0]["v"][ix % n])
+        if kind == "coord":
+            m["points"] = list(other["points"])
+            m["points"][pos] = [m["points"][pos][0] + 0.37] + list(m["points"][pos][1:])
+        else:
+            f = dict(other["pf"][0], v=list(other["pf"][0]["v"]))
+            f["v"][pos] += 0.125
+            m["pf"] = [f]
+    else:
+        pos = other["cf"][0]["v"].index(lm["cf"][0]["v"][ix % ncell])
+        if kind == "cfield":
+            f = dict(other["cf"][0], v=list(other["cf"][0]["v"]))
+            f["v"][pos] += 1
+            m["cf"] = [f]
+        else:
+            t, rws = other["cells"][0]
+            rws = list(rws)
+            row = list(rws[pos])
+            row[-1] = next(q for q in range(n) if q not in row and (q + 1) % n not in row)
+            rws[pos] = row
+            m["cells"] = [[t, rws]]
+    return m
+
+
+def p6g_batch(ctx, rows):
+    """directed batches for dimensions of the quantifier sampled at one point only before (notes/PHASE6_G1m_audit.md).
+    FCV_P6G_OFF=1 switches them off."""
+    import time
+    rng = ctx.rng
+    t0 = [time.time()]
+    secs = ctx.extra.setdefault("p6g_seconds", {})
+
+    def lap(name):
+        secs[name] = round(secs.get(name, 0.0) + time.time() - t0[0], 2)
+        t0[0] = time.time()
+    # (a) both members of a compatible pair in ONE mesh x every site class: full machinery (Lean eq / ladder model)
+    for i in range(ctx.scale(56, 700)):
+        site = SITES[i % len(SITES)]
+        lm, t = mg6.gen_pair_mesh(rng, max_cells_per_dir=3, scale=rng.choice([1e-3, 1.0, 1.0, 2.5, 1e3]))
+        if i % 5 == 4:
+            lm = mg6.insert_orphans(rng, lm, rng.choice(["front", "middle", "scattered"]), 2)
+        sep = separated(lm)
+        base_key = geom_key(lm)
+        relabeled = rng.random() < 0.6
+        other = meshgen.relabel(rng, lm, extra_orphans=rng.choice([0, 0, 1])) if relabeled else copy.deepcopy(lm)
+        mut, tag, expect = mutate(rng, other, site)
+        if expect is True:
+            if geom_key(mut) == base_key:
+                expect, tag = None, tag + "-no-real-change"
+            elif not sep:
+                expect, tag = None, tag + "-unseparated"
+        tags = ["p6g-pair", f"dim{t['dim']}", "style-" + t["style"], "relabeled" if relabeled else "same-order"]
+        for role in ("mutated-as-source", "mutated-as-reference"):
+            s, rf = (mut, lm) if role == "mutated-as-source" else (lm, mut)
+            check_case(ctx, {"src": s, "ref": rf, "flags": [False, False, False], "expect_fail": expect, "tag": tag, "role": role,
+                             "tags": tags + [role], "ladder": ctx.tier == "thorough" or i % 4 == 0}, rows)
+    lap("pair")
+    # (b) EVERY site of a few meshes (each point x coordinate, each cell, each corner, each field entry), the unmodified
+    # object REUSED for all comparisons, storage of either side varied (search only)
+    nst = len(mg6.STORAGES)
+    for i in range(ctx.scale(2, 60)):
+        if i % 2:
+            lm, t = mg6.gen_pair_mesh(rng, max_cells_per_dir=2, scale=rng.choice([1.0, 2.5, 1e3]))
+        else:
+            lm, t = meshgen.gen_mesh(rng, max_cells_per_dir=2, dims=(2, 3), allow_duplicates=False, allow_orphans=False,
+                                     scale=rng.choice([1.0, 2.5]))
+            for _ in range(20):
+                if t["jitter"] == 0.0 and t["topo"] >= 2:
+                    break
+                lm, t = meshgen.gen_mesh(rng, max_cells_per_dir=2, dims=(2, 3), allow_duplicates=False, allow_orphans=False,
+                                         scale=rng.choice([1.0, 2.5]))
+        lm = mg6.add_odd_fields(rng, lm, names=(i % 4 < 2), strings=True)
+        lm = mg6.round_to_f32(lm)
+        if not separated(lm):
+            continue
+        st_ref = mg6.STORAGES[(2 * i) % nst] if i % 3 else mg6.DEFAULT_STORAGE
+        if not mg6.storage_fits(lm, st_ref):
+            st_ref = mg6.DEFAULT_STORAGE
+        ref_fc = mg6.to_fc_storage(lm, st_ref)                   # built ONCE, used in every comparison below
+        base_key = geom_key(lm)
+        relab = i % 2 == 0
+        for k, (tag, mut) in enumerate(_sweep_sites(lm)):
+            st = mg6.STORAGES[(i + k) % nst] if k % 2 else mg6.DEFAULT_STORAGE
+            if "f4" in st["pts"] or "f4" in st_ref["pts"]:
+                mut = mg6.round_to_f32(mut)
+            if geom_key(mut) == base_key:
+                continue
+            if relab:
+                mut = _relabel6(rng, mut)
+            if not mg6.storage_fits(mut, st):
+                st = mg6.DEFAULT_STORAGE
+            mut_fc = mg6.to_fc_storage(mut, st)
+            for role in ("mutated-as-source", "mutated-as-reference"):
+                s, r = (mut_fc, ref_fc) if role == "mutated-as-source" else (ref_fc, mut_fc)
+                small = {"kind": "p6g-storage", "src": mut if s is mut_fc else lm, "ref": lm if s is mut_fc else mut,
+                         "st_src": st if s is mut_fc else st_ref, "st_ref": st_ref if s is mut_fc else st,
+                         "flags": [False, False, False], "tag": tag, "role": role, "key": (i, k)}
+                _fails(ctx, small, s, r, ["p6g-sweep", "site-" + tag.split("-")[1], "p6g-" + mg6.storage_tag(st),
+                                          "relabeled" if relab else "same-order", role],
+                       f"single-site modification '{tag}' beyond tolerance but the comparison passes "
+                       f"(storage {mg6.storage_tag(st)} vs {mg6.storage_tag(st_ref)}, reference object reused)")
+        # the reused reference object still is what it was
+        if c08units(meshgen_from_any(ref_fc)) != c08units(lm):
+            ctx.violation({"kind": "p6g-storage", "src": lm, "ref": lm, "st_src": st_ref, "st_ref": st_ref, "tag": "reuse",
+                           "role": "-", "flags": [False, False, False]}, "changed", "unchanged", cls=None,
+                          what="a data set changed by being compared repeatedly")
+    lap("sweep")
+    # (c) sizes: more than 1000 / more than 65536 points, the modified site at the first / last / middle entity and next to
+    # the powers of two (search only)
+    bigs = [(mg6.big_lattice(33, 34, dim=2, style="quad"),
+             [0, 999, 1000, 1023, 1024, -1] if ctx.tier != "thorough" else [0, 1, 511, 512, 999, 1000, 1023, 1024, -2, -1]),
+            (mg6.big_lattice(1100, 0, dim=1, style="line"), [0, 1000, 1024, -1])]
+    if True:
+        bigs.append((mg6.big_lattice(260, 256, dim=3, style="quad"),
+                     [65536, -1] if ctx.tier != "thorough" else [0, 1, 1000, 32768, 65535, 65536, 65537, -2, -1]))
+    for lm, idxs in bigs:
+        n, ncell = len(lm["points"]), len(lm["cells"][0][1])
+        st = {"pts": "<f8", "layout": "C", "conn": "i32", "fields": "C"} if n > 60000 else mg6.DEFAULT_STORAGE
+        ref_fc = mg6.to_fc_storage(lm, st)
+        same = mg6.fast_relabel(rng, lm, "identity")
+        perm = mg6.fast_relabel(rng, lm, "random")
+        for variant, other in (("same-order", same), ("relabeled", perm)):
+            for k, ix in enumerate(idxs):
+                kinds = ["coord", "pfield", "cfield", "rewire"] if n < 60000 else [["coord", "cfield", "pfield", "rewire"][k % 4]]
+                for kind in kinds:
+                    m = _big_modify(lm, other, kind, ix)
+                    mut_fc = mg6.to_fc_storage(m, st)
+                    for role in (("mutated-as-source", "mutated-as-reference") if ctx.tier == "thorough" and n < 60000 else
+                                 (("mutated-as-source",) if (k + len(kind)) % 2 else ("mutated-as-reference",))):
+                        s, r = (mut_fc, ref_fc) if role == "mutated-as-source" else (ref_fc, mut_fc)
+                        small = {"kind": "p6g-big", "nx_ny_dim_style": None, "npoints": n, "site": kind, "index": ix,
+                                 "variant": variant, "tag": f"big-{kind}-at-{ix}", "role": role, "key": (n, kind, ix, variant),
+                                 "flags": [False, False, False]}
+                        if n < 1300:
+                            small.update({"kind": "p6g-storage", "src": m if s is mut_fc else lm, "ref": lm if s is mut_fc else m,
+                                          "st_src": st, "st_ref": st})
+                        else:
+                            small["lattice"] = [260, 256, 3, "quad"]        # regenerated by replay()
+                        _fails(ctx, small, s, r, ["p6g-big", f"p6g-npoints={n}", "site-big-" + kind, variant, role,
+                                                  f"p6g-index={ix}"],
+                               f"{n} points: single-site modification '{kind}' at original index {ix} but the comparison passes")
+    lap("big")
+
+
+def c08units(lm):
+    return {"points": [[f2u(c) for c in p] for p in lm["points"]], "cells": lm["cells"],
+            "pf": sorted([f["name"], f["dt"], f["tail"], [repr(x) for x in f["v"]]] for f in lm["pf"]),
+            "cf": sorted([f["name"], f["ctype"], f["dt"], f["tail"], [repr(x) for x in f["v"]]] for f in lm["cf"])}
+
+
+def meshgen_from_any(fields):
+    return mg6.from_fc_any(fields)
+
+
+# ---------------------------------------------------------------- phase 6: a selected predicate that RAISES on the deviating field
+
+class _RaisesOnDeviation:
+    """user predicate in the style of numpy.testing.assert_allclose: returns success or RAISES (AssertionError)"""
+
+    def __call__(self, a, b):
+        from fieldcompare.predicates import PredicateResult
+        np.testing.assert_allclose(a, b, rtol=1e-9, atol=0.0)
+        return PredicateResult(True)
+
+    def __str__(self):
+        return "RaisesOnDeviation(rtol=1e-9)"
+
+
+class _Recording:
+    """wraps a predicate and records the (annotation-free) field names on which it raised"""
+
+    def __init__(self, inner, log, name):
+        self.inner, self.log, self.name = inner, log, name
+
+    def __call__(self, a, b):
+        try:
+            return self.inner(a, b)
+        except Exception:
+            self.log.append(self.name)
+            raise
+
+    def __str__(self):
+        return "Recording(" + str(self.inner) + ")"
+
+
+def _pred_selector(kind, log):
+    from fieldcompare.predicates import DefaultEquality, FuzzyEquality
+
+    def sel(sf, rf):
+        if kind == "a":
+            inner = _RaisesOnDeviation()
+        elif kind == "c" and sf.name == "v":
+            # per-component tolerances of the WRONG length (the field has 2 or 3 components)
+            inner = FuzzyEquality(abs_tol=np.array([1e-9] * 5), rel_tol=1e-9)
+        else:
+            inner = DefaultEquality()
+        return _Recording(inner, log, sf.name)
+    return sel
+
+
+def run_pred_case(case):
+    """-> observable dict of MeshFieldsComparator(src, ref)(predicate_selector=...) for a p6-predicate-raises case"""
+    from fieldcompare.mesh import MeshFieldsComparator
+    log, msgs = [], []
+    src, ref = mg6.to_fc_storage(case["src"]), mg6.to_fc_storage(case["ref"])
+    with warnings.catch_warnings():
+        warnings.simplefilter("ignore")
+        with np.errstate(all="ignore"):
+            try:
+                suite = MeshFieldsComparator(src, ref)(predicate_selector=_pred_selector(case["pred"], log),
+                                                       fieldcomp_callback=lambda _: None, reordering_callback=msgs.append)
+            except Exception as e:  # noqa: BLE001
+                return {"escaped": type(e).__name__, "raised": sorted(set(log))}
+    rung = "as-is"
+    for m in msgs:
+        if "Retrying with " in m:
+            rung = m.split("Retrying with ")[-1].rstrip(".").replace(" ", "-")
+    return {"suite": bool(suite), "status": suite.status.name, "domain": bool(suite.domain_equality_check),
+            "statuses": sorted((c.name, c.status.name) for c in suite), "failed": sorted(c.name for c in suite.failed),
+            "passed": sorted(c.name for c in suite.passed), "skipped": sorted(c.name for c in suite.skipped),
+            "raised": sorted(set(log)), "rung": rung, "report": suite.report}
+
+
+def pred_case_problems(case, obs):
+    """what the property demands of such a case -> list of problem descriptions"""
+    if "escaped" in obs:
+        return []                       # an exception that leaves the comparator is not a PASS
+    bad = []
+    base = lambda n: n.split(" @ ")[0]   # noqa: E731
+    for name in obs["raised"]:
+        comps = [(n, st) for n, st in obs["statuses"] if base(n) == name]
+        if not comps or any(st not in ("error", "failed") for _, st in comps if st != "passed") or \
+                not any(st in ("error", "failed") for _, st in comps):
+            bad.append(f"the predicate raised on field '{name}' but its comparison is reported as {comps}")
+        if not any(base(n) == name for n in obs["failed"]):
+            bad.append(f"the predicate raised on field '{name}' but the comparison is not among suite.failed")
+        if any(base(n) == name for n in obs["skipped"]):
+            bad.append(f"the predicate raised on field '{name}' and the comparison is counted as skipped")
+    if obs["raised"] and (obs["suite"] or obs["status"] != "failed"):
+        bad.append(f"a predicate raised ({obs['raised']}) but bool(suite)={obs['suite']}, suite.status={obs['status']}")
+    if case["changed"] and (obs["suite"] or obs["status"] != "failed"):
+        bad.append(f"one changed entry ({case['changed']}) with a predicate that raises on it, but bool(suite)={obs['suite']}, "
+                   f"suite.status={obs['status']}")
+    return bad
+
+
+def _pad3(lm):
+    """the same 2-d data set stored with three coordinate columns (zero z, vectors padded)"""
+    out = copy.deepcopy(lm)
+    out["points"] = [p + [0.0] for p in out["points"]]
+    out["dim"] = 3
+    for f in out["pf"] + out["cf"]:
+        if f["tail"] == [2]:
+            v = []
+            for i in range(0, len(f["v"]), 2):
+                v += f["v"][i:i + 2] + [0.0]
+            f["tail"], f["v"] = [3], v
+    return out
+
+
+def _perm_points_only(rng, lm):
+    """points (and point fields) permuted, cells and type blocks in place"""
+    n = len(lm["points"])
+    perm = list(range(n))
+    rng.shuffle(perm)
+    inv = {old: new for new, old in enumerate(perm)}
+    out = {"dim": lm["dim"], "points": [list(lm["points"][o]) for o in perm],
+           "cells": [[t, [[inv[i] for i in r] for r in rows]] for t, rows in lm["cells"]], "pf": [], "cf": copy.deepcopy(lm["cf"])}
+    for f in lm["pf"]:
+        rs = _rowsize(f["tail"])
+        out["pf"].append(dict(f, v=[x for o in perm for x in f["v"][o * rs:(o + 1) * rs]]))
+    return out
+
+
+def pred_raises_batch(ctx):
+    """tag p6-predicate-raises: the selected predicate RAISES on the deviating field (per-field status `error`):
+    (a) a user predicate that raises only on deviation, (b) DefaultEquality on a float field vs a STRING field of the same
+    name, (c) FuzzyEquality with a per-component tolerance array of the wrong length.  Operands prepared so that each rung of
+    the retry ladder is the deciding one (as-is / extended dimension / sorted points / sorted cells).  Demanded: a raise is
+    reported as `error`, counted among suite.failed (never skipped / passed), bool(suite) False, suite.status failed; with ONE
+    changed entry the suite fails.  Search only (python-side expectation; the Lean ladder model has no raising predicates)."""
+    import os as _os
+    import tempfile
+    from fcv import cli
+    rng = ctx.rng
+    n_viol = 0
+    for i in range(ctx.scale(3, 40)):
+        if i % 3 == 0:
+            lm = mg6.big_lattice(3, 2, dim=2, style="quad", point_fields=0, cell_fields=0)
+        else:
+            lm, _ = mg6.gen_pair_mesh(rng, topo=2, dim=2, max_cells_per_dir=3, scale=rng.choice([1.0, 2.5]), fields=False)
+        n = len(lm["points"])
+        lm["pf"] = [{"name": "u", "dt": "f64", "tail": [], "v": [1.5 + 0.25 * k for k in range(n)]},
+                    {"name": "v", "dt": "f64", "tail": [2], "v": [3.0 + 0.5 * k for k in range(2 * n)]}]
+        lm["cf"] = [{"name": "c", "ctype": t, "dt": "f64", "tail": [], "v": [7.0 + 0.125 * k + 100 * b for k in range(len(rows))]}
+                    for b, (t, rows) in enumerate(lm["cells"])]
+        variants = [("as-is", lambda m: copy.deepcopy(m)),
+                    ("3d-vs-2d", _pad3),
+                    ("points-permuted+orphan", lambda m: mg6.insert_orphans(rng, _perm_points_only(rng, m), "front", 1)),
+                    ("relabelled+orphans", lambda m: meshgen.relabel(rng, m, extra_orphans=2)),
+                    ("3d+relabelled", lambda m: meshgen.relabel(rng, _pad3(m), extra_orphans=1))]
+        sites = [None, ("u", 0), ("u", n - 1), ("u", n // 2), ("v", 2 * n - 1), ("v", 0), ("c", 0)]
+        for vi, (vname, prep) in enumerate(variants):
+            for pred in ("a", "b", "c"):
+                for si, site in enumerate(sites):
+                    if ctx.tier != "thorough" and site is not None and (si + vi + i) % 3 != 0 and pred != "a":
+                        continue
+                    mut = copy.deepcopy(lm)
+                    if site is not None:
+                        fs = [f for f in mut["pf"] + mut["cf"] if f["name"] == site[0]]
+                        fs[0]["v"][site[1] % len(fs[0]["v"])] += 0.0625
+                    if pred == "b":
+                        # the float field `u` is a STRING field of the same name on the modified side
+                        mut["pf"][0] = dict(mut["pf"][0], dt="str", v=[repr(x) for x in mut["pf"][0]["v"]])
+                    other = prep(mut)
+                    for role in ("mutated-as-source", "mutated-as-reference"):
+                        s_, r_ = (other, lm) if role == "mutated-as-source" else (lm, other)
+                        case = {"kind": "p6-pred", "src": s_, "ref": r_, "pred": pred, "changed": list(site) if site else None,
+                                "variant": vname, "role": role, "tag": f"pred-{pred}-{site[0] if site else 'unchanged'}",
+                                "flags": [False, False, False]}
+                        obs = run_pred_case(case)
+                        probs = pred_case_problems(case, obs)
+                        ctx.case(("p6-pred", i, vname, pred, si, role), nontrivial=site is not None or pred != "a",
+                                 tags=["p6-predicate-raises", "pred-" + pred, "variant-" + vname, role,
+                                       "rung-" + obs.get("rung", "escaped"), "changed" if site else "unchanged",
+                                       "raised" if obs.get("raised") else "not-raised",
+                                       "suite-" + str(obs.get("suite", "escaped:" + str(obs.get("escaped"))))],
+                                 sample={"pred": pred, "variant": vname, "changed": site, "obs": obs} if si == 1 and vi == 3 else None)
+                        if probs and n_viol < 20:
+                            n_viol += 1
+                            ctx.violation(case, "; ".join(probs)[:1500] + f" | statuses={obs.get('statuses')} rung={obs.get('rung')}",
+                                          "FAIL (error status counted as failure)", cls=None,
+                                          what="a raising predicate / a changed entry under a raising predicate does not make the comparison fail")
+    # (b) through the CLI: a numeric column vs a string column of the same name (tabular files; VTK formats cannot state strings)
+    with tempfile.TemporaryDirectory(prefix="fcv_c03_pred_") as tmp:
+        fa, fb, fc_ = (_os.path.join(tmp, x) for x in ("a.csv", "b.csv", "c.csv"))
+        open(fa, "w").write("x,u\n0.0,1.5\n1.0,2.5\n2.0,3.5\n")
+        open(fb, "w").write("x,u\n0.0,abc\n1.0,def\n2.0,ghi\n")
+        open(fc_, "w").write("x,u\n0.0,1.5\n1.0,2.5\n2.0,3.5\n")
+        for name, args, want_zero in (("num-vs-str", [fa, fb], False), ("str-vs-num", [fb, fa], False), ("same", [fa, fc_], True)):
+            code, _ = cli.run_cli(["file"] + args)
+            ctx.case(("p6-pred-cli", name), nontrivial=True, tags=["p6-predicate-raises", "pred-b-cli", f"cli-{code}"])
+            if (code == 0) != want_zero and not want_zero:
+                ctx.violation({"kind": "p6-pred-cli", "files": {"a.csv": open(args[0]).read(), "b.csv": open(args[1]).read()}, "tag": name,
+                               "role": "-", "flags": []}, f"exit={code}", "exit != 0", cls=None,
+                              what="CLI: numeric column vs string column of the same name compares as passed")
+
+
 def gen_cases(rng, i, ladder=True):
     """cases derived from one base mesh"""
     site = SITES[i % len(SITES)]
@@ -565,6 +989,11 @@ def run(ctx):
             flush(ctx, rows)
             rows = []
     flush(ctx, rows)
+    if os.environ.get("FCV_P6G_OFF") != "1":
+        rows = []
+        p6g_batch(ctx, rows)
+        flush(ctx, rows)
+        pred_raises_batch(ctx)
     file_batch(ctx)
     ctx.spec_viol = sorted(ctx.spec_viol, key=lambda v: len(str(v["case"])))[:100]
 
@@ -607,6 +1036,58 @@ def replay(ctx, payload):
     case = payload["case"]
     if case.get("kind") == "vtu-files":
         return replay_files(ctx, payload)
+    if case.get("kind") == "p6-pred":
+        obs = run_pred_case(case)
+        probs = pred_case_problems(case, obs)
+        print(f"replay: predicate kind {case['pred']} ({case['variant']}, {case['role']}, changed entry {case['changed']}): {obs}")
+        for pr in probs:
+            print("replay: problem:", pr)
+        if probs:
+            print(f"VIOLATION property=C03 replay={payload.get('_path', '<replay>')}")
+            return 1
+        print("replay: no violation")
+        return 0
+    if case.get("kind") == "p6-pred-cli":
+        import tempfile
+        from fcv import cli
+        with tempfile.TemporaryDirectory(prefix="fcv_c03_pred_") as tmp:
+            import os as _os
+            fa, fb = _os.path.join(tmp, "a.csv"), _os.path.join(tmp, "b.csv")
+            open(fa, "w").write(case["files"]["a.csv"])
+            open(fb, "w").write(case["files"]["b.csv"])
+            code, _ = cli.run_cli(["file", fa, fb])
+        print(f"replay: CLI exit code {code} for a numeric vs a string column of the same name")
+        if code == 0:
+            print(f"VIOLATION property=C03 replay={payload.get('_path', '<replay>')}")
+            return 1
+        return 0
+    if case.get("kind") == "p6g-big":
+        import random
+        nx, ny, dim, style = case["lattice"]
+        lm = mg6.big_lattice(nx, ny, dim=dim, style=style)
+        other = mg6.fast_relabel(random.Random(0), lm, "identity" if case["variant"] == "same-order" else "random")
+        st = {"pts": "<f8", "layout": "C", "conn": "i32", "fields": "C"}
+        mut_fc, ref_fc = mg6.to_fc_storage(_big_modify(lm, other, case["site"], case["index"]), st), mg6.to_fc_storage(lm, st)
+        s_, r_ = (mut_fc, ref_fc) if case["role"] == "mutated-as-source" else (ref_fc, mut_fc)
+        impl = run_comparator(s_, r_, [False, False, False])
+        print(f"replay: {len(lm['points'])}-point lattice ({case['variant']}), '{case['site']}' changed at original index {case['index']}, "
+              f"{case['role']}: comparator (domain,suite)={impl}")
+        if impl[-1] == "1" and not impl.startswith("X:"):
+            print(f"VIOLATION property=C03 replay={payload.get('_path', '<replay>')}")
+            return 1
+        print("replay: no violation")
+        return 0
+    if case.get("kind") == "p6g-storage":
+        src, ref = mg6.to_fc_storage(case["src"], case["st_src"]), mg6.to_fc_storage(case["ref"], case["st_ref"])
+        impl = run_comparator(src, ref, case.get("flags", [False, False, False]))
+        changed = geom_key(case["src"]) != geom_key(case["ref"])
+        print(f"replay: storage {mg6.storage_tag(case['st_src'])} vs {mg6.storage_tag(case['st_ref'])}: comparator "
+              f"(domain,suite)={impl}, data sets differ: {changed}, modification={case.get('tag')}")
+        if changed and impl[-1] == "1" and not impl.startswith("X:"):
+            print(f"VIOLATION property=C03 replay={payload.get('_path', '<replay>')}")
+            return 1
+        print("replay: no violation")
+        return 0
     src, ref = meshgen.to_fc(case["src"]), meshgen.to_fc(case["ref"])
     flags = case.get("flags", [False, False, False])
     impl = run_comparator(src, ref, flags)
